@@ -214,6 +214,25 @@ func c15Requests(c *sim.Case) {
 		r := rawCheck(w, req)
 		c.Logf("raw request shape=%d path=%q cookie=%q -> %v", shape, short(req.GetAttributes().GetRequest().GetHttp().GetPath(), 40), short(req.GetAttributes().GetRequest().GetHttp().GetHeaders()["cookie"], 60), r)
 		wellFormed(c, r, "raw request")
+		// whatever the hostile request left in the session is used when its login completes
+		if w.IsLoginRedirect(r) && sim.Weighted(c, "follow-through", 1, 1) == 1 {
+			sid := ""
+			for _, sc := range r.SetCookies() {
+				if sc.Name == w.CookieName() {
+					sid = sc.Value
+				}
+			}
+			if cb, _, err := w.IdP.Authorize(r.Location(), "mallory"); err == nil && sid != "" {
+				path := cb[strings.Index(cb, "/cb"):]
+				r2 := w.Check(sim.Req{Scheme: "https", Host: w.AppHost, Path: path, Headers: map[string]string{"cookie": w.CookieName() + "=" + sid}})
+				c.Logf("   callback of that login -> %v", r2)
+				wellFormed(c, r2, "callback after a hostile first request")
+				if r2.IsRedirect() {
+					r3 := w.Check(sim.Req{Scheme: "https", Host: w.AppHost, Path: "/a", Headers: map[string]string{"cookie": w.CookieName() + "=" + sid}})
+					wellFormed(c, r3, "request after that login")
+				}
+			}
+		}
 	}
 	if m.deep > 0 {
 		c.NonTrivial()
